@@ -26,7 +26,7 @@ RULE = (
     "reductions). One evaluation = one (aggregation, dtype class, length, split, plan) structure covering every value "
     "sequence of that length (label 'rows' counts sequences). Non-trivial = >=2 non-empty parts or an empty part."
 )
-BUDGET = {"quick": 25, "thorough": 400}
+BUDGET = {"quick": 50, "thorough": 400}
 ASSUMPTIONS = [
     "arg-reductions asserted on NaN-free rows (nanarg*: not-all-NaN rows) only, as in C01",
     "var/std compared with rtol=atol=1e-12; everything else exactly (values are small dyadic numbers)",
